@@ -28,4 +28,4 @@ def main():
         assumptions=['SV / CheckSer harness models mirror serde_json::Value (validated natively on every run)',
                      'strings: schema values with <= 1 byte edit, and free ASCII strings up to 3 (quick) / 5 (thorough) bytes; longer and non-ASCII strings are outside the bound',
                      'enum definitions: the catalogue under kgen/catalogue (program axis is a catalogue, not a quantifier)'],
-        jobs=8)
+        jobs=6)
